@@ -340,3 +340,79 @@ func checkSharedRefNotRepointed(c *Ctx, rule string, scope []string, min int) {
 	}
 	c.MinInstances(rule, n, min)
 }
+
+// derivedFromField: v is the slice loaded from owner.field, or a re-slice of it.
+func derivedFromField(v ssa.Value, owner, field string, depth int) bool {
+	if depth > 6 || v == nil {
+		return false
+	}
+	switch x := stripConv(v).(type) {
+	case *ssa.UnOp:
+		if fa, ok := x.X.(*ssa.FieldAddr); ok {
+			o, st := ownerOfFieldBase(fa.X.Type())
+			return o == owner && st != nil && st.Field(fa.Field).Name() == field
+		}
+		if al, ok := x.X.(*ssa.Alloc); ok {
+			if sv := reachingStore(al, x); sv != nil {
+				return derivedFromField(sv, owner, field, depth+1)
+			}
+		}
+	case *ssa.Slice:
+		return derivedFromField(x.X, owner, field, depth+1)
+	case *ssa.Phi:
+		for _, e := range x.Edges {
+			if derivedFromField(e, owner, field, depth+1) {
+				return true
+			}
+		}
+	}
+	return false
+}
+
+// checkExposedSliceImmutable: a slice field that an accessor hands out as it is (no copy)
+// must never have its elements overwritten in place — a caller that kept the earlier result
+// would see it change. The field may only be replaced by a new slice (or extended by append).
+func checkExposedSliceImmutable(c *Ctx, rule, owner, field string, methods []*ssa.Function) {
+	p := c.P
+	exposed := ""
+	for _, fn := range methods {
+		for _, r := range Returns(fn) {
+			for _, res := range r.Results {
+				if derivedFromField(res, owner, field, 0) {
+					if _, isSl := stripConv(res).(*ssa.Slice); !isSl {
+						exposed = FuncKey(fn)
+					}
+				}
+			}
+		}
+	}
+	if exposed == "" {
+		c.Notes = append(c.Notes, rule+": no accessor returns "+owner+"."+field+" uncopied; in-place writes are not restricted")
+		return
+	}
+	var bad []string
+	for _, fn := range methods {
+		for _, b := range blocksDeep(fn) {
+			for _, in := range b.Instrs {
+				switch x := in.(type) {
+				case *ssa.Store:
+					if ia, ok := x.Addr.(*ssa.IndexAddr); ok && derivedFromField(ia.X, owner, field, 0) {
+						bad = append(bad, FuncKey(fn)+" stores into an element at "+p.InstrPos(x))
+					}
+				case *ssa.Call:
+					if CalleeName(x.Common()) == "builtin:copy" && derivedFromField(x.Common().Args[0], owner, field, 0) {
+						bad = append(bad, FuncKey(fn)+" copies into it at "+p.InstrPos(x))
+					}
+					if CalleeName(x.Common()) == "builtin:append" {
+						// append(field[:k], …) overwrites elements k… of the shared array
+						if sl, ok := stripConv(x.Common().Args[0]).(*ssa.Slice); ok && sl.High != nil && derivedFromField(sl.X, owner, field, 0) {
+							bad = append(bad, FuncKey(fn)+" appends onto a shortened view of it at "+p.InstrPos(x))
+						}
+					}
+				}
+			}
+		}
+	}
+	sort.Strings(bad)
+	c.Require(rule, owner+"."+field+" (handed out by "+exposed+")", "-", "a slice an accessor returns uncopied is only ever replaced, never rewritten in place", len(bad) == 0, strings.Join(bad, "; "))
+}
